@@ -55,6 +55,20 @@ def parse_objects(text):
     return out
 
 
+def head_exprs_to_body(c):
+    """the checker matches the head against the node's tuple BEFORE it walks the body, so a head argument that is an
+    expression over body variables cannot be evaluated at that point. The clause handed to the checker is therefore the
+    equivalent one in which every such argument E is replaced by a fresh variable h and `h = E` is appended to the body:
+    r(.., E, ..) :- B.   ==>   r(.., h, ..) :- B, h = E.     (trusted glue: the two clauses have the same instances)"""
+    head, body = list(c[1]), list(c[2])
+    for i, t in enumerate(head):
+        if t[0] == "op":
+            h = ("var", "h__%d" % i, t[3] if len(t) > 3 else "number")
+            head[i] = h
+            body.append(("cmp", "eq", h, t))
+    return (c[0], head, body)
+
+
 def norm_clause(text):
     return re.sub(r"\s+", "", re.sub(r"\+underscore_\d+", "_", text or ""))
 
@@ -98,7 +112,7 @@ def tree_sx(p, node, stats, out):
     leaves = [leaf_sx(p, c, stats) for c in node.get("children", [])]
     cited = stats["rules"].get((rel.name, node["rule-number"]))
     k = stats["clause_index"].get((rel.name, norm_clause(cited))) if cited else None
-    own = [c for c in p.clauses if c[0] == rel.name]
+    own = [head_exprs_to_body(c) for c in p.clauses if c[0] == rel.name]
     ks = [k] if k is not None else list(range(len(own)))
     stats["nodes"] += 1
     stats["nodes_identified_by_cited_text"] += 1 if k is not None else 0
@@ -111,11 +125,16 @@ def tree_sx(p, node, stats, out):
         pos = [l for l in leaves if l.startswith("(fact")]
         neg = [l for l in leaves if l.startswith("(negfact")]
         res = []
+        seen = {}           # souffle removes a literal that repeats an earlier literal of the clause: the repeat reuses its child
         for lit in own[kk][2]:
-            if lit[0] == "pos":
+            if lit[0] in ("pos", "neg") and repr(lit) in seen:
+                res.append(seen[repr(lit)])
+            elif lit[0] == "pos":
                 res.append(pos.pop(0) if pos else "")
+                seen[repr(lit)] = res[-1]
             elif lit[0] == "neg":
                 res.append(neg.pop(0) if neg else "")
+                seen[repr(lit)] = res[-1]
             else:
                 res.append("(cons)")
         return " ".join(x for x in res + pos + neg if x)
@@ -183,7 +202,7 @@ def main(pid, tier, seed, replay):
         for rel in p.rels:
             rows = p.facts.get(rel.name, []) if rel.kind == "edb" else [tuple(int(x) for x in row.split("\t")) for row in o[1][rel.name]]
             db.append("(%d %s)" % (rel.id, " ".join("(" + " ".join("(n %d)" % D.G.signed(v) for v in t) + ")" for t in rows)))
-        cls = " ".join(p.clause_sx(c) for c in p.clauses)
+        cls = " ".join(p.clause_sx(head_exprs_to_body(c)) for c in p.clauses)
         for (name, t), obj in zip(qs, objs[: len(qs)]):
             proof = obj.get("proof", {})
             stats["rules"] = {}
